@@ -65,6 +65,25 @@ def _normalize_raw_title(raw_title: str) -> str:
     return f'"{escaped}"'
 
 
+def _link_destination(dest: str) -> str:
+    """
+    Render a link or image destination. A destination that contains whitespace or
+    unbalanced parentheses is only valid inside angle brackets.
+    """
+    depth = 0
+    balanced = True
+    for c in dest:
+        if c == "(":
+            depth += 1
+        elif c == ")":
+            depth -= 1
+            if depth < 0:
+                balanced = False
+    if any(c.isspace() for c in dest) or not balanced or depth != 0:
+        return "<" + dest.replace("<", "\\<").replace(">", "\\>") + ">"
+    return dest
+
+
 def _min_fence_length(code_content: str, fence_char: str = "`") -> int:
     """
     Calculate the minimum fence length needed for code content.
@@ -588,7 +607,7 @@ class MarkdownNormalizer(Renderer):
                 return f"[{label}]"
             return f"[{link_text}][{label}]"
         title = f" {link_title}" if link_title is not None else ""
-        return f"[{link_text}]({element.dest}{title})"
+        return f"[{link_text}]({_link_destination(element.dest)}{title})"
 
     def render_auto_link(self, element: inline.AutoLink) -> str:
         return f"<{element.dest}>"
@@ -596,7 +615,7 @@ class MarkdownNormalizer(Renderer):
     def render_image(self, element: inline.Image) -> str:
         template = "![{}]({}{})"
         title = f" {_normalize_title_quotes(element.title)}" if element.title else ""
-        return template.format(self.render_children(element), element.dest, title)
+        return template.format(self.render_children(element), _link_destination(element.dest), title)
 
     def render_literal(self, element: inline.Literal) -> str:
         """
